@@ -97,7 +97,13 @@ class NativeVC:
     def bytes_fixed(self, name, n):
         return self._bytes(self._get(name))
 
+    UNIQUE_TAGS = ("transport", "listener", "handler", "loop")
+
     def opaque(self, name, tag="obj"):
+        if tag in self.UNIQUE_TAGS:
+            # stateful collaborators: one object per harness input, whatever the model says
+            self._get(name)
+            return self._intern.setdefault(("unique", name), _Opaque(tag, name))
         return self._mk_opaque(tag, self._get(name))
 
     def opaque_seq(self, name, tag="obj", maxlen=None):
@@ -197,6 +203,9 @@ class NativeVC:
         return self._get(name)
 
     # ---- facts
+    def forall(self, lo, hi, fn):
+        return all(fn(m) for m in range(lo, hi))
+
     def assume(self, c):
         if not c:
             raise ReplayInvalid("assumption violated by the model")
@@ -430,9 +439,62 @@ class GenVC(NativeVC):
         hdr += r.randrange(65536).to_bytes(2, "big") + r.randrange(65536).to_bytes(2, "big") + bytes([1, r.randrange(256), mt, rc])
         return hdr + payload
 
+    def _option_bytes(self):
+        r = self.rng
+        k = r.random()
+        if k < 0.3:
+            t = r.choice([0x04, 0x14, 0x24])
+            body = bytes([0]) + bytes(r.randrange(256) for _ in range(4)) + bytes([0, r.choice([6, 17, 99])]) + r.randrange(65536).to_bytes(2, "big")
+        elif k < 0.45:
+            t = r.choice([0x06, 0x16, 0x26])
+            body = bytes([0]) + bytes(r.randrange(256) for _ in range(16)) + bytes([0, r.choice([6, 17, 99])]) + r.randrange(65536).to_bytes(2, "big")
+        elif k < 0.6:
+            t = 2
+            body = bytes([0]) + r.randrange(65536).to_bytes(2, "big") + r.randrange(65536).to_bytes(2, "big")
+        elif k < 0.8:
+            t = 1
+            body = self.bytes("_cfg", hint="config")
+            self.model.pop("_cfg", None)
+        else:
+            t = r.choice([0, 3, 0x42, 0xFF])
+            body = bytes(r.randrange(256) for _ in range(r.choice([0, 1, 5])))
+        if r.random() < 0.1:
+            body = body[:-1]
+        return len(body).to_bytes(2, "big") + bytes([t]) + body
+
+    def _sd_bytes(self):
+        r = self.rng
+        opts = [self._option_bytes() for _ in range(r.choice([0, 1, 2, 3]))]
+        n = len(opts)
+        ents = []
+        for _ in range(r.choice([0, 1, 2, 3])):
+            t = r.choice([0, 1, 6, 7, 7, 1, 2])
+            oi1, oi2 = r.randrange(n + 1), r.randrange(n + 1)
+            no1 = r.randrange(n - oi1 + 1) if r.random() < 0.9 else r.randrange(16)
+            no2 = r.randrange(n - oi2 + 1) if r.random() < 0.9 else r.randrange(16)
+            val = r.choice([0, 1, 0xFFFFF, 0x100000, r.randrange(1 << 20), r.randrange(1 << 32)])
+            ents.append(bytes([t, oi1, oi2, ((no1 & 15) << 4) | (no2 & 15)]) + r.randrange(65536).to_bytes(2, "big") + r.randrange(65536).to_bytes(2, "big")
+                        + bytes([r.randrange(256)]) + r.choice([0, 3, 0xFFFFFF, r.randrange(1 << 24)]).to_bytes(3, "big") + val.to_bytes(4, "big"))
+        eb, ob = b"".join(ents), b"".join(opts)
+        b = bytes([r.choice([0xC0, 0x40, 0x80, 0x00, 0xFF, 0x41]), r.choice([0, 0, 1]), 0, 0]) + len(eb).to_bytes(4, "big") + eb + len(ob).to_bytes(4, "big") + ob
+        k = r.random()
+        if k < 0.15:
+            b += bytes(r.randrange(256) for _ in range(r.randrange(1, 6)))
+        elif k < 0.3 and b:
+            ba = bytearray(b)
+            ba[r.randrange(len(ba))] ^= 1 << r.randrange(8)
+            b = bytes(ba)
+        elif k < 0.4:
+            b = b[: r.randrange(len(b) + 1)]
+        return b
+
     def bytes(self, name, minlen=0, maxlen=None, native_from=None, hint=None):
         r = self.rng
-        if hint == "config" and r.random() < 0.85:
+        if hint == "sd" and r.random() < 0.9:
+            b = self._sd_bytes()
+        elif hint == "option" and r.random() < 0.9:
+            b = self._option_bytes() + bytes(r.randrange(256) for _ in range(r.choice([0, 0, 3])))
+        elif hint == "config" and r.random() < 0.85:
             items = []
             for _ in range(r.choice([0, 1, 1, 2, 3])):
                 k = "".join(r.choice("abk") for _ in range(r.choice([1, 1, 2, 3])))
@@ -488,6 +550,8 @@ class GenVC(NativeVC):
     def opaque(self, name, tag="obj"):
         ident = self._ident(tag)
         self.model[name] = ident
+        if tag in self.UNIQUE_TAGS:
+            return self._intern.setdefault(("unique", name), _Opaque(tag, name))
         return self._mk_opaque(tag, ident)
 
     def opaque_seq(self, name, tag="obj", maxlen=None):
